@@ -20,7 +20,7 @@ func TestVerif(t *testing.T) {
 	driver.Main(t, driver.Harness{
 		ID:    "C04",
 		Level: "model_checking",
-		Rule: "scenario = DAG shape x root x link-closed pre-population x Concurrency x API; every scenario's choice tree " +
+		Rule: "scenario = DAG shape x root x link-closed pre-population x Concurrency x API (CopyGraph, Copy, ExtendedCopyGraph from a subject with several referrer roots); every scenario's choice tree " +
 			"(goroutine schedules at sync/atomic/channel/storage begin+end points, callback fault answers) is enumerated " +
 			"within the deviation bound around three base schedulers; non-trivial = execution in which a goroutine began a storage operation while another was inside one",
 		Assumptions: []string{
@@ -77,6 +77,25 @@ func jobs(tier string) []driver.Job {
 					default:
 						out = append(out, mkJob(s, 1, 0, all3))
 					}
+				}
+			}
+		}
+		// ExtendedCopyGraph from the deepest subject: several roots share the subject's sub-graph
+		switch d.Name {
+		case "two-referrers-shared", "referrer-types", "index-subject", "subject-chain", "artifact-subject":
+			start := 0
+			for _, n := range d.Nodes {
+				if n.Subject >= 0 {
+					start = n.Subject
+					break
+				}
+			}
+			for _, conc := range []int{0, 2} {
+				s := scen{d: d, root: start, conc: conc, api: "ext"}
+				if th {
+					out = append(out, mkJob(s, 2, 0, []int{0}, 0, 1), mkJob(s, 1, 0, []int{1, 2}))
+				} else {
+					out = append(out, mkJob(s, 1, 0, all3))
 				}
 			}
 		}
@@ -165,7 +184,9 @@ func (s scen) make(last **World) (func(), func(*vs.Result) *driver.Fail) {
 	opts := oras.CopyGraphOptions{Concurrency: s.conc, PreCopy: cb("pre"), PostCopy: cb("post"), OnCopySkipped: cb("skip"), OnMounted: cb("mounted")}
 	var err error
 	body := func() {
-		if s.api == "graph" {
+		if s.api == "ext" {
+			err = oras.ExtendedCopyGraph(context.Background(), src, dst, rootDesc, oras.ExtendedCopyGraphOptions{CopyGraphOptions: opts})
+		} else if s.api == "graph" {
 			err = oras.CopyGraph(context.Background(), src, dst, rootDesc, opts)
 		} else {
 			_, err = oras.Copy(context.Background(), src, "ref", dst, "", oras.CopyOptions{CopyGraphOptions: opts})
